@@ -63,9 +63,25 @@ def theorem_names(prop: str):
     return re.findall(rf"^\s*theorem\s+({prop}_\w+)", src, flags=re.M)
 
 
-def forbidden_hits():
+def import_closure(prop: str):
+    """Lean source files the property theorems depend on (transitive PyttbModel imports)."""
+    seen, todo = set(), [f"PyttbModel.Props.{prop}"]
+    while todo:
+        m = todo.pop()
+        if m in seen:
+            continue
+        f = LEAN / (m.replace(".", "/") + ".lean")
+        if not f.exists():
+            continue
+        seen.add(m)
+        for imp in re.findall(r"^import\s+(PyttbModel[\w.]*)", f.read_text(), flags=re.M):
+            todo.append(imp)
+    return sorted(LEAN / (m.replace(".", "/") + ".lean") for m in seen)
+
+
+def forbidden_hits(prop: str):
     hits = []
-    for f in sorted((LEAN / "PyttbModel").rglob("*.lean")) + [LEAN / "Main.lean"]:
+    for f in import_closure(prop):
         src = strip_comments(f.read_text())
         for n, ln in enumerate(src.split("\n"), 1):
             if FORBIDDEN.search(ln):
@@ -127,7 +143,8 @@ def lean_build(prop: str, tier: str, info: dict):
                     broken.append(f"audit: {n} uses {sorted(axioms[n] - ALLOWED_AXIOMS)}")
                 else:
                     discharged += 1
-        hits = forbidden_hits()
+        hits = forbidden_hits(prop)
+        info["lean_files"] = [str(f.relative_to(LEAN)) for f in import_closure(prop)]
         if hits:
             broken.append("forbidden tokens: " + "; ".join(hits[:5]))
             discharged = 0
